@@ -70,6 +70,27 @@ def HS.step (h : HS) (ev : HEv) : HS :=
     | .cleanup true => ({ h with ca := h.ca - 1 } : HS).put true (cleanup h.a .clean)
     | .cleanup false => ({ h with cb := h.cb - 1 } : HS).put false (cleanup h.b .clean)
 
+/-- the two-endpoint system with the channel methods as they were BEFORE the repairs (peer's CLOSE does not resume a
+    paused writer; dropped / discarded data is not credited) -/
+def HS.stepPreFix (h : HS) (ev : HEv) : HS :=
+  if h.enabled ev = false then h
+  else
+    match ev with
+    | .app true o => h.put true { appOpPreFix h.a o with err := none }
+    | .app false o => h.put false { appOpPreFix h.b o with err := none }
+    | .deliver true =>
+      (match h.ab with
+       | [] => h
+       | m :: rest => ({ h with ab := rest } : HS).put false (processMsgPreFix h.b m))
+    | .deliver false =>
+      (match h.ba with
+       | [] => h
+       | m :: rest => ({ h with ba := rest } : HS).put true (processMsgPreFix h.a m))
+    | .cleanup true => ({ h with ca := h.ca - 1 } : HS).put true (cleanup h.a .clean)
+    | .cleanup false => ({ h with cb := h.cb - 1 } : HS).put false (cleanup h.b .clean)
+
+def HS.runPreFix (h : HS) (evs : List HEv) : HS := evs.foldl HS.stepPreFix h
+
 /-- an established channel: both directions open, sessions attached, windows `w`, nothing in flight -/
 def HS.init (w : Nat) : HS :=
   { a := { server := false, sendSt := .opn, recvSt := .opn, sendChan := some 0, sendWin := w, recvWin := w, initWin := w,
